@@ -590,9 +590,12 @@ def _upgrade_policies(policies, default_policies):
                 # new ones, in which case it has already been moved once.
                 old_rule = old_policies[rule_default.deprecated_rule.name]
                 policies.pop(rule_default.deprecated_rule.name, None)
-                if old_rule == 'rule:%s' % rule_default.name:
-                    # The old name was only an alias of the new policy;
-                    # carrying it over would make the policy reference itself.
+                alias = 'rule:%s' % rule_default.name
+                if str(_parser.parse_rule(old_rule)) == alias:
+                    # The old name was only an alias of the new policy, in
+                    # whichever spelling (the enforcer compares the parsed
+                    # rule as well); carrying it over would make the policy
+                    # reference itself.
                     continue
                 policies[rule_default.name] = old_rule
                 LOG.info('The name of policy %(old_name)s has been upgraded to'
